@@ -56,6 +56,7 @@ pub const HOSTILE: &[&str] = &[
     "hostile-block-bad-gt-payload",
     "hostile-block-no-tx",
     "hostile-block-huge-replacements",
+    "hostile-block-same-input-twice",
     "issuance-tx-no-from",
     "tx-no-outputs",
     "typed-tx-odd-shape",
@@ -391,6 +392,19 @@ impl Scenario for C11 {
                                     t2.sign(&w.keys.iter().find(|k| k.pk == t.from[0].public_key)?.sk);
                                     b.transactions.insert(0, t2);
                                     // reseal by hand: generate() refuses, so compute merkle/prehash/sig/hash directly
+                                    b.merkle_root = b.generate_merkle_root(false, false);
+                                    b.generate_pre_hash();
+                                    b.sign(&creator.sk);
+                                    b.generate_hash();
+                                }
+                                "same-input-twice" => {
+                                    // the block's first transaction lists one of its inputs twice
+                                    let pos = b.transactions.iter().position(|t| t.transaction_type == TransactionType::Normal && t.from.iter().any(|s| s.amount > 0))?;
+                                    let mut t = b.transactions.remove(pos);
+                                    let dup = t.from.iter().find(|s| s.amount > 0)?.clone();
+                                    t.add_from_slip(dup);
+                                    t.sign(&w.keys.iter().find(|k| k.pk == t.from[0].public_key)?.sk);
+                                    b.transactions.insert(0, t);
                                     b.merkle_root = b.generate_merkle_root(false, false);
                                     b.generate_pre_hash();
                                     b.sign(&creator.sk);
